@@ -2,7 +2,8 @@
 From Coq Require Import Reals QArith Qround Sorting.Permutation PrimFloat.
 From Flocq Require Import Raux.
 From EsVerif.Common Require Import Base.
-From EsVerif.C13 Require Import Model Spec Proofs CountProofs ModelR LogBinProofs FloatModel FloatProofs Exec ExecProofs.
+From EsVerif.C13 Require Import Model Spec Proofs CountProofs ModelR LogBinProofs FloatModel FloatProofs Exec ExecProofs C05Tie ExecTie.
+From EsVerif.C05 Require Model.
 
 (* ---- ids.  [root] and [choose] are the unmodelled floating-point choices of the JHU code; the
    hypotheses (a root triangle is found, a child number is 0..3, some child always accepts the
@@ -155,6 +156,35 @@ Theorem C13_any_reverse_index_layout : forall nbin rev rev' minid maxid ids2 bin
   (0 <= k < nbin)%Z ->
   zget (cbincount nbin rev minid maxid binof covers) k = zget (cbincount nbin rev' minid maxid binof covers) k.
 Proof. exact cbincount_any_rev. Qed.
+
+(* ---- the reverse-index layout DERIVED from the verified single pass of stat.histogram (property C05,
+   import only): for ANY sort index s (a permutation of 0..n2-1 along which the ids are non-decreasing;
+   numpy's stable argsort is one) the array C05's chist / pyhist builds for the bin numbers
+   ids2[k] - minid and nbin = maxid - minid + 1 has the layout cbincount needs, for every triangle *)
+Theorem C13_rev_layout_from_C05 : forall eng ids2 minid maxid s leaves,
+  Permutation s (zseq 0 (length ids2)) ->
+  Sorted.Sorted Z.le (map (bn ids2 minid) s) ->
+  (minid <= maxid)%Z ->
+  rev_ok_on (zget (c05_rev eng ids2 minid maxid s)) minid maxid ids2 leaves.
+Proof. intros eng ids2 minid maxid s leaves Hp Hs Hw. apply rev_ok_on_from_C05; assumption. Qed.
+
+(* ... so that, with the internally computed reverse indices, H_cover alone gives the brute-force counts *)
+Theorem C13_bincount_with_C05_rev : forall eng nbin ids2 minid maxid s binof covers k,
+  (0 <= nbin)%Z ->
+  Permutation s (zseq 0 (length ids2)) -> Sorted.Sorted Z.le (map (bn ids2 minid) s) -> (minid <= maxid)%Z ->
+  (forall i2, In i2 (zseq 0 (length ids2)) -> in_window minid maxid (zget ids2 i2) = true) ->
+  covers_H nbin ids2 binof 0 covers ->
+  (0 <= k < nbin)%Z ->
+  zget (cbincount nbin (zget (c05_rev eng ids2 minid maxid s)) minid maxid binof covers) k
+  = brute binof (length ids2) k 0 (length covers).
+Proof. exact bincount_with_C05_rev. Qed.
+
+(* the per-case tie (ExecTie.rev_tie, evaluated on the REAL array returned by stat.histogram): the real array
+   equals C05's pass on its own sort index, which is a sorting permutation  ==>  the layout holds *)
+Theorem C13_rev_tie_sound : forall ids2 minid maxid runs, rev_tie ids2 minid maxid runs = true ->
+  forall leaves,
+    rev_ok_on (zget (real_rev runs (Z.to_nat (C05Tie.nbin minid maxid + 1) + length ids2))) minid maxid ids2 leaves.
+Proof. exact rev_tie_sound. Qed.
 
 (* what the verdict of a bincount case means (Exec.bc_ok, evaluated on the counts the real bincount
    returned, [o] from the plain call and [rest] from the calls with precomputed ids / reverse indices /
